@@ -1,7 +1,6 @@
 package netutil
 
 import (
-	"net"
 	"strings"
 )
 
@@ -49,11 +48,54 @@ func StripHostPort(h string) string {
 		return strings.TrimSuffix(h, ".")
 	}
 
-	host, _, err := net.SplitHostPort(h)
-	if err != nil {
+	host, ok := splitHostPort(h)
+	if !ok {
 		return h // on error, return unchanged
 	}
 	return strings.TrimSuffix(host, ".")
+}
+
+// splitHostPort returns the host part of "host:port", "host%zone:port", "[host]:port" or "[host%zone]:port".
+// It accepts and rejects exactly the inputs that [net.SplitHostPort] accepts and rejects, but reports a
+// rejection with a boolean: net.SplitHostPort allocates an error value for each input it rejects (e.g. an
+// IPv6 literal without port such as "[::1]"), which would cost one allocation per request on the lookup path.
+func splitHostPort(hostport string) (host string, ok bool) {
+	// This is adapted from the Go stdlib:
+	// https://github.com/golang/go/blob/go1.24.0/src/net/ipsock.go#L160-L210
+	j, k := 0, 0
+
+	// The port starts after the last colon.
+	i := strings.LastIndexByte(hostport, ':')
+	if i < 0 {
+		return "", false // missing port in address
+	}
+
+	if hostport[0] == '[' {
+		// Expect the first ']' just before the last ':'.
+		end := strings.IndexByte(hostport, ']')
+		if end < 0 {
+			return "", false // missing ']' in address
+		}
+		if end+1 != i {
+			// Either there is no ':' behind the ']', or ']' isn't followed by a colon,
+			// or it is followed by a colon that is not the last one.
+			return "", false
+		}
+		host = hostport[1:end]
+		j, k = 1, end+1 // there can't be a '[' resp. ']' before these positions
+	} else {
+		host = hostport[:i]
+		if strings.IndexByte(host, ':') >= 0 {
+			return "", false // too many colons in address
+		}
+	}
+	if strings.IndexByte(hostport[j:], '[') >= 0 {
+		return "", false // unexpected '[' in address
+	}
+	if strings.IndexByte(hostport[k:], ']') >= 0 {
+		return "", false // unexpected ']' in address
+	}
+	return host, true
 }
 
 // validOptionalPort reports whether port is either an empty string
